@@ -199,7 +199,7 @@ def gen_recurring_case(seed: int, rnd: random.Random) -> SchedCase:
         return any(filt_allow(zc.name, p[3], start + (k0 + k) * p[2]) for k in range(3000))
     # directed variants (two in five cases): a time of day inside the interval a clock change repeats / skips, with the
     # job created (or first executed, a little late) at a moment at which the run of that day is still ahead
-    variant = {2: 'twice_late', 3: 'later_backward', 4: 'later_forward'}.get(seed % 5)
+    variant = {1: 'near_start', 2: 'twice_late', 3: 'later_backward', 4: 'later_forward'}.get(seed % 5)
     force_late = None
     special = None
     if variant and trs:
@@ -223,6 +223,22 @@ def gen_recurring_case(seed: int, rnd: random.Random) -> SchedCase:
             special = ('time', w * NS_S, rnd.choice(['later', 'after']), rnd.choice(['skip', 'earlier', 'later', 'twice']), None)
             # created right after the clock jumped, before the moved run of that day
             epoch = (t + rnd.randint(1, max(2, (b - a) // 2 - 60))) * NS_S
+    if variant == 'near_start':
+        # an interval whose start lies less than one interval after the creation of the job and is NOT admitted by the
+        # filter of the trigger: the first run is the first admitted grid point, not the start
+        from oracle_prod import filt_allow
+        step = rnd.choice([NS_HOUR, 90 * NS_MIN, 6 * NS_HOUR, NS_DAY])
+        start = (epoch + rnd.randint(1, 9) * step // 10) // 1000 * 1000
+        cands = [('dow', sorted(rnd.sample(range(1, 8), rnd.randint(1, 5)))) for _ in range(6)] + \
+                [('time', rnd.randrange(0, 86400) * NS_S, None) for _ in range(3)] + \
+                [('time', None, rnd.randrange(1, 86400) * NS_S) for _ in range(3)] + \
+                [('not', ('dow', sorted(rnd.sample(range(1, 8), rnd.randint(1, 5))))) for _ in range(3)]
+        rnd.shuffle(cands)
+        for f in cands:
+            p0 = ('interval', start, step, f)
+            if not filt_allow(zc.name, f, start) and searchable(p0):
+                special = p0
+                break
     n = rnd.randint(1, 3)
     for h in range(1, n + 1):
         p = snap(gen_producer(rnd, zc, epoch, rnd.randint(1, 2), filters=0.3, ops=('group',)))
